@@ -68,3 +68,22 @@ func VerifC18Register(d ShardAssignmentsDispatcher, namespace string) (*proto.Sh
 	}
 	return c.got[0], nil
 }
+
+type verifC18Subscriber struct {
+	ctx   context.Context
+	onMap func(*proto.ShardAssignments)
+}
+
+func (c *verifC18Subscriber) Send(a *proto.ShardAssignments) error {
+	c.onMap(a)
+	return nil
+}
+func (c *verifC18Subscriber) Context() context.Context { return c.ctx }
+
+// VerifC18Subscribe runs the real RegisterForUpdates for a client that stays connected until ctx ends; every
+// map sent to the client is handed to onMap (which may block: a slow client). Returns what the handler returns.
+func VerifC18Subscribe(ctx context.Context, d ShardAssignmentsDispatcher, namespace string, onMap func(*proto.ShardAssignments)) error {
+	c := &verifC18Subscriber{onMap: onMap}
+	c.ctx = metadata.NewIncomingContext(ctx, metadata.Pairs(":authority", VerifC18Authority))
+	return d.RegisterForUpdates(&proto.ShardAssignmentsRequest{Namespace: namespace}, c)
+}
